@@ -292,17 +292,20 @@ int main(int argc, char** argv) {
       }
       // ---- shaving as the solver's contractor, the solution a few floats away from the end point of a slice of the ROOT box:
       //      x0 - x1 = 0, x0 + x1 = 2c (solution (c,c), exact for every double c), slices computed as Ctc3BCid computes them
-      if (!C06_LINES && r.coin(20)) {
+      if (!C06_LINES && r.coin(30)) {
         int s3b = r.range(3, 12);
         double lb = r.range(-40, 40) / 8.0 + (r.coin() ? 0.0 : r.range(1, 9) / 10.0), diam = r.range(1, 40) / 4.0 + (r.coin() ? 0.0 : r.range(1, 9) / 10.0);
-        volatile double ub = lb + diam; volatile double w = (ub - lb) / s3b; int kk = r.range(1, s3b - 1);
-        volatile double b1 = lb + kk * w; volatile double b0 = lb + (kk - 1) * w; volatile double b2 = b0 + w;
-        double lo = std::min((double)b1, (double)b2), hi = std::max((double)b1, (double)b2);
-        for (int q = 0; q < 2; q++) { lo = std::nextafter(lo, -1e300); hi = std::nextafter(hi, 1e300); }
-        vector<double> cand; for (double c = lo; c <= hi && cand.size() < 64; c = std::nextafter(c, 1e300)) cand.push_back(c);
-        for (int rep = 0; rep < 6; rep++) {
+        volatile double ub = lb + diam; volatile double w = (ub - lb) / s3b;
+        vector<double> cand;
+        for (int k = 1; k < s3b; k++) { volatile double b1 = lb + k * w; volatile double b0 = lb + (k - 1) * w; volatile double b2 = b0 + w;
+          double lo = std::min((double)b1, (double)b2), hi = std::max((double)b1, (double)b2);
+          if (lo != hi) for (double c = lo; c <= hi && cand.size() < 48; c = std::nextafter(c, 1e300)) cand.push_back(c); }
+        { int k = r.range(1, s3b - 1); volatile double b1 = lb + k * w; double c = b1; for (int q = 0; q < 2; q++) c = std::nextafter(c, -1e300);
+          for (int q = 0; q < 5; q++) { cand.push_back(c); c = std::nextafter(c, 1e300); } }
+        size_t next_cand = 0;
+        for (int rep = 0; rep < 20 && next_cand < cand.size(); rep++) {
         Problem Q; Q.n = 2; Q.m = 2; Q.k = 0;
-        double c = cand[r.below(cand.size())];
+        double c = cand[next_cand++];
         Array<const ExprSymbol> sx(2); sx.set_ref(0, ExprSymbol::new_("z0", Dim::scalar())); sx.set_ref(1, ExprSymbol::new_("z1", Dim::scalar()));
         const ExprNode& e1 = sx[0] - sx[1]; const ExprNode& e2 = sx[0] + sx[1] - ExprConstant::new_scalar(2 * c);
         IntervalVector rb(2); int var = r.below(2); rb[var] = Interval(lb, ub); rb[1 - var] = Interval(c - r.range(1, 16) / 4.0, c + r.range(1, 16) / 4.0);
